@@ -7,6 +7,7 @@ package main
 import (
 	"fmt"
 	"go/ast"
+	"go/constant"
 	"go/token"
 	"go/types"
 	"strings"
@@ -1545,6 +1546,14 @@ func parseEnumCanonicalRule(p *Prog, r *Report, id string) {
 		nOK++
 		return true
 	})
+	if bad != "" || nOK == 0 {
+		// the search may have been moved into a helper: decide on the values that reach the success returns
+		if why := enumCanonicalSSA(p, fi); why == "" {
+			bad, nOK = "", 1
+		} else if bad == "" {
+			bad = why
+		}
+	}
 	switch {
 	case bad != "":
 		r.Bad("config/parse.Enum/canonical", p.PosStr(fi.Decl.Pos()), bad)
@@ -1589,6 +1598,9 @@ func parseEnumCanonicalRule(p *Prog, r *Report, id string) {
 					enumArgs = append(enumArgs, exprString(a))
 				}
 			}
+		}
+		if !okB {
+			okB = boolTableEval(p, bf)
 		}
 		if okB && strings.Join(enumArgs, ",") == "true,<param>,yes,no" {
 			r.OK("config/parse.Bool", p.PosStr(bf.Decl.Pos()), "Enum(true, remaining, \"yes\", \"no\"); true ⇔ \"\" or \"yes\"")
@@ -2188,4 +2200,175 @@ func lookupFirstEval(p *Prog, sf *ssa.Function, update, declared *bool) *ssa.Ret
 	return absReachState(sf, sc, func(_ *ssa.Return, _ func(ssa.Value) absVal, st map[string]absVal) bool {
 		return st["@early"].k == absBool && st["@early"].b
 	})
+}
+
+// enumCanonicalSSA: every value parse.Enum returns together with a nil error is "" or an element of its `values`
+// parameter that compared equal (==) to the written word — followed through private helpers.  "" = holds.
+func enumCanonicalSSA(p *Prog, fi *FuncInfo) string {
+	sf := p.SSAFunc(fi)
+	if sf == nil || len(sf.Params) == 0 {
+		return "no SSA for parse.Enum"
+	}
+	valuesParam := sf.Params[len(sf.Params)-1]
+	region := map[*ssa.Function]bool{}
+	for _, rf := range p.Region("config/parse.Enum") {
+		if hf := p.SSAFunc(rf); hf != nil {
+			region[hf] = true
+		}
+	}
+	// isValues: v is the values parameter, or a helper parameter that receives it at every call
+	var isValues func(v ssa.Value, d int) bool
+	isValues = func(v ssa.Value, d int) bool {
+		if v == ssa.Value(valuesParam) {
+			return true
+		}
+		prm, ok := v.(*ssa.Parameter)
+		if !ok || d > 3 {
+			return false
+		}
+		fn := prm.Parent()
+		idx := -1
+		for i, q := range fn.Params {
+			if q == prm {
+				idx = i
+			}
+		}
+		sites := p.SSACallSites(fn)
+		if fn.Origin() != nil {
+			sites = append(sites, p.SSACallSites(fn.Origin())...)
+		}
+		if len(sites) == 0 || idx < 0 {
+			return false
+		}
+		for _, cs := range sites {
+			if idx >= len(cs.Common().Args) || !isValues(cs.Common().Args[idx], d+1) {
+				return false
+			}
+		}
+		return true
+	}
+	var canon func(v ssa.Value, d int) string
+	canon = func(v ssa.Value, d int) string {
+		if d > 6 {
+			return "value derivation too deep"
+		}
+		switch x := v.(type) {
+		case *ssa.Const:
+			if x.Value == nil || (x.Value.Kind() == constant.String && constant.StringVal(x.Value) == "") {
+				return ""
+			}
+			return "a constant other than \"\" is returned"
+		case *ssa.Convert:
+			return canon(x.X, d+1)
+		case *ssa.ChangeType:
+			return canon(x.X, d+1)
+		case *ssa.Phi:
+			for _, e := range x.Edges {
+				if w := canon(e, d+1); w != "" {
+					return w
+				}
+			}
+			return ""
+		case *ssa.UnOp:
+			if ia, ok := x.X.(*ssa.IndexAddr); ok && x.Op == token.MUL && isValues(ia.X, 0) {
+				// under an == comparison that involves this element
+				for _, f := range factsAt(x.Block()) {
+					if b, ok := f.(*ssa.BinOp); ok && b.Op == token.EQL && (stripConv(b.X) == ssa.Value(x) || stripConv(b.Y) == ssa.Value(x)) {
+						return ""
+					}
+				}
+				// the comparison may follow the load in the same block: look at the users of the load
+				if x.Referrers() != nil {
+					for _, ref := range *x.Referrers() {
+						var cmp *ssa.BinOp
+						switch y := ref.(type) {
+						case *ssa.BinOp:
+							cmp = y
+						case *ssa.Convert, *ssa.MultiConvert, *ssa.ChangeType:
+							if yr := y.(ssa.Value).Referrers(); yr != nil {
+								for _, r2 := range *yr {
+									if b2, ok := r2.(*ssa.BinOp); ok {
+										cmp = b2
+									}
+								}
+							}
+						}
+						if cmp != nil && cmp.Op == token.EQL {
+							return ""
+						}
+					}
+				}
+				return "an allowed value is returned without an == comparison with the written word"
+			}
+		case *ssa.Extract:
+			if c, ok := x.Tuple.(*ssa.Call); ok {
+				callee := c.Call.StaticCallee()
+				if callee != nil && callee.Origin() != nil {
+					callee = callee.Origin()
+				}
+				if callee != nil && region[callee] {
+					for _, b := range callee.Blocks {
+						for _, in := range b.Instrs {
+							if ret, ok := in.(*ssa.Return); ok && x.Index < len(ret.Results) {
+								if w := canon(ret.Results[x.Index], d+1); w != "" {
+									return w
+								}
+							}
+						}
+					}
+					return ""
+				}
+			}
+		}
+		return "a success return yields `" + v.String() + "`, which is not \"\" or the matching element of the allowed values"
+	}
+	n := 0
+	why := ""
+	allInstrs(sf, false, func(in ssa.Instruction) {
+		ret, ok := in.(*ssa.Return)
+		if !ok || len(ret.Results) != 2 || !isNilConst(ret.Results[1]) {
+			return
+		}
+		n++
+		if w := canon(ret.Results[0], 0); w != "" && why == "" {
+			why = p.PosStr(ret.Pos()) + ": " + w
+		}
+	})
+	if n == 0 {
+		return "no success return recognised"
+	}
+	return why
+}
+
+// boolTableEval: parse.Bool yields true exactly for "" and "yes" (evaluated with the canonical value returned by
+// Enum fixed to "", "yes", "no").
+func boolTableEval(p *Prog, bf *FuncInfo) bool {
+	sf := p.SSAFunc(bf)
+	if sf == nil {
+		return false
+	}
+	for _, row := range []struct {
+		val  string
+		want bool
+	}{{"", true}, {"yes", true}, {"no", false}} {
+		row := row
+		n := 0
+		sc := &absScenario{
+			assume: func(v ssa.Value, _ func(ssa.Value) absVal) (absVal, bool) {
+				if extractOf(v, 0, modPath+"/config/parse", "Enum") {
+					n++
+					return aStr(row.val), true
+				}
+				return aUnknown, false
+			},
+		}
+		got := absReach(sf, sc, func(ret *ssa.Return, eval func(ssa.Value) absVal) bool {
+			a := eval(ret.Results[0])
+			return !(a.k == absBool && a.b == row.want)
+		})
+		if got != nil || n == 0 {
+			return false
+		}
+	}
+	return true
 }
